@@ -65,6 +65,17 @@ CHECKS = {
             "and intersects only fires on networks that contain a reserved address - given the obligations table_wf and table_closed over the network table regenerated from the build (table_closed is what failed for 127/8 before the fix); "
             "every special-purpose block of the statement is reserved in full and the listed public addresses are not (data obligations).",
             "DESIGN.md 5/C19", "Non-canonical bases and non-contiguous masks are outside the property's quantifier."),
+    "C11": (True, "Coq theorems over the configuration-routing model (all documents, all configurable lints of the three kinds) + kernel-checked obligation on non-table sections + in-Coq correspondence on generated TOML",
+            "Proof: a lint's run depends on the document only through the node stored under its own name (so none/empty/unrelated-only documents are indistinguishable and setting section A changes no lint other than A); "
+            "a section the decoder rejects, or a non-table node (given the obligation that applying one is an error - which failed before the fix), makes exactly that lint fatal with the configuration-error text and nothing panics; "
+            "filtered registries carry the configuration value they were created with. The go-toml decoder is an oracle. Tied to the code by generated documents x scripted configurable lints of all kinds, the four real configurable "
+            "lints under inapplicable sections, the example configuration, and a SetConfiguration/Filter/run op sequence.",
+            "DESIGN.md 5/C11", "go-toml Unmarshal is an oracle; none of the registered lints embeds a higher-scoped configuration (checked by the census of Configure() types is not automated: stated)."),
+    "C18": (True, "Coq theorems (validity iff over any well-formed table, date parser, lint-level iff) + kernel-checked well-formedness of the table regenerated from the build + in-Coq correspondence at every entry's boundaries",
+            "Proof: for any table passing table_ok, a name is valid at t iff its right-most label lower-cased is a key, t is not before the parsed delegation date and not after the parsed removal date when one is recorded; "
+            "the 'ever' test ignores dates; the lint errs iff the non-IP common name or a DNS name fails at notBefore. table_ok and key uniqueness are re-checked by the kernel on the ~1570-entry table dumped from the running build; "
+            "the date parser model is compared with time.Parse on every table string and malformed variants; HasValidTLD is compared at delegation/removal +-1s of every entry under several spellings.",
+            "DESIGN.md 5/C18", "strings.ToLower is modelled for ASCII, invalid UTF-8 and the two non-ASCII code points that fold onto ASCII letters; other runes stay non-ASCII (sufficient because keys are ASCII, which is part of table_ok)."),
 }
 
 REASON_PENDING = "check not built yet in this session; planned (see DESIGN.md section 5)"
